@@ -16,6 +16,8 @@ import traceback
 
 from . import core
 
+NO_ESCALATE = {'C01', 'C03', 'C04', 'C08', 'C13', 'C14'}
+
 
 def main(argv=None):
     ap = argparse.ArgumentParser()
@@ -44,7 +46,8 @@ def main(argv=None):
     try:
         ex = core.run_extract()
         mapped = ex.get('changed', {})
-        if any(prop in props for props in mapped.values()):
+        # properties whose thorough exploration takes many minutes keep their quick budget on edited code
+        if any(prop in props for props in mapped.values()) and prop not in NO_ESCALATE:
             ctx.escalated = True
             ctx.note('mirrored source changed since the model was written: ' +
                      ', '.join(q for q, props in mapped.items() if prop in props))
